@@ -68,8 +68,10 @@ ChecksumFor(lines, asset) == IF lines = <<>> THEN "none"
                              ELSE ChecksumFor(Tail(lines), asset)
 
 (* ---------------- (3) throttle automaton ---------------- *)
-\* time in hours; tags are abstract: the running version is "same"
-Window == 72
+\* time in units of 20 minutes (so that instants need not be aligned to whole hours: 72 h = 216 units; the harness maps one
+\* unit to 1200 s); tags are abstract: the running version is "same"
+UnitsPerHour == 3
+Window == 72 * UnitsPerHour
 Tags == {"older", "same", "newer", "garbage"}
 NewerTag(tag) == tag = "newer"
 Expired(tp, now) == now - tp >= Window
